@@ -48,6 +48,7 @@ M = [
     ('revert-bundle-cast-fix', 'impl/bundle/Bundle_base.h', '@git', 'ef892cc~1', ['C08', 'C13']),
     ('revert-rn-transform-fix', 'impl/rn/Rn.h', '@git', '6aaa354~1', ['C01']),
     ('revert-rvalue-const-view-assign-fix(F21)', 'impl/macro.h', '@git', '05d9b1b~1', ['C10', 'C19']),
+    ('revert-bundlesize-definition-fix(F23)', 'impl/bundle/Bundle_base.h', '@git', 'cb54ad5~1', ['C19']),
     ('revert-cubic-fix(F10)', 'algorithms/interpolation.h', '@git', 'fb2aa18~1', ['C15']),
     ('c07-se23-generators-swapped', 'impl/se_2_3/SE_2_3Tangent_base.h', None, None, ['C07']),
     ('c07-se2-innerweights', 'impl/se2/SE2Tangent_base.h', 'Scalar(0), Scalar(0), Scalar(2) ).finished()', 'Scalar(0), Scalar(0), Scalar(1) ).finished()', ['C07']),
